@@ -70,7 +70,18 @@ func Len(t *rapid.T, label string, o Opts) int {
 }
 
 var asciiAlphabet = []byte("abcdefghijklmnopqrstuvwxyz0123456789/+#$-_ ")
-var utf8Pieces = []string{"å", "ä", "ö", "é", "ü", "€", "日", "本", "😀", "/", "a", "b"}
+
+// utf8Pieces: ordinary multi-byte characters plus the code points at the
+// edges of the UTF-8 encoding forms and the ones text handling code tends to
+// know by name (replacement character U+FFFD, byte order mark U+FEFF, no-break
+// space, a combining accent, the last code points before and after the
+// surrogate gap, the first and last supplementary ones that are characters).
+var utf8Pieces = []string{"å", "ä", "ö", "é", "ü", "€", "日", "本", "😀", "/", "a", "b",
+	"\u00a0", "\u07ff", "\u0800", "\ud7ff", "\ue000", "\ufffd", "\ufffd", "\ufeff", "\U00010000", "\U0010fffd", "e\u0301"}
+
+// utf8PiecesLoose adds what MQTT says a string SHOULD NOT contain (control
+// characters, non-characters): legal inside the 65 535-byte limit all the same.
+var utf8PiecesLoose = append(append([]string{}, utf8Pieces...), "\u0001", "\u001f", "\u007f", "\u0080", "\u009f", "\uffff", "\U0010ffff")
 
 // fillTo expands a short drawn pattern to n bytes.
 func fillTo(pattern []byte, n int) []byte {
@@ -134,7 +145,11 @@ func StrN(t *rapid.T, label string, n int, o Opts) string {
 	case kind < 9 || o.SpecValid: // multi-byte UTF-8, trimmed/padded to n bytes with ascii
 		var sb strings.Builder
 		for sb.Len() < n {
-			piece := rapid.SampledFrom(utf8Pieces).Draw(t, label+".u")
+			pieces := utf8Pieces
+			if !o.SpecValid {
+				pieces = utf8PiecesLoose
+			}
+			piece := rapid.SampledFrom(pieces).Draw(t, label+".u")
 			if sb.Len()+len(piece) > n {
 				break
 			}
